@@ -12,6 +12,7 @@ import (
 	"strings"
 	"text/template/parse"
 
+	"golang.org/x/tools/go/packages"
 	"golang.org/x/tools/go/ssa"
 )
 
@@ -133,6 +134,24 @@ func (a *Analysis) ruleW() {
 			upd = callee
 			okMain = true
 			r.OK("W1", "main/arguments", a.P.InstrPos(c), "", "%s(stem, %s[stem]): file stem and variable are one entry of the table", fnKey(callee), tableVar.Name())
+			a.checkMainStops(c)
+			continue
+		}
+		if pt := a.genPairs; pt != nil {
+			e0, f0, ok0 := pairElemField(sargs[0], pt.Var)
+			e1, f1, ok1 := pairElemField(sargs[1], pt.Var)
+			if ok0 && ok1 && e0 == e1 && f0 == pt.Stem && f1 == pt.Variable {
+				// the loop that yields the element must go over the whole table: a range over it
+				if a.rangesOverWholeTable(c, pt.Var) {
+					upd = callee
+					okMain = true
+					r.OK("W1", "main/arguments", a.P.InstrPos(c), "", "%s(element.%d, element.%d) for every element of %s: file stem and variable are one entry of the table", fnKey(callee), f0, f1, pt.Var.Name())
+				} else {
+					r.Bad("W1", "main/arguments", a.P.InstrPos(c), "", "the update function is not called for every element of %s", pt.Var.Name())
+				}
+			} else {
+				r.Bad("W1", "main/arguments", a.P.InstrPos(c), "", "the update function is not called with the two fields of one element of the table")
+			}
 			a.checkMainStops(c)
 			continue
 		}
@@ -378,6 +397,26 @@ func (a *Analysis) genTable() (map[string]string, string, *ssa.Global) {
 					if !ok {
 						continue
 					}
+					if pairs, ok := a.pairLiteral(pk, cl); ok {
+						// an array or slice of {stem, variable} pairs: which field is which is read off
+						// the call of the update function (pairRoles)
+						gl, _ := a.P.Gen.Members[nm.Name].(*ssa.Global)
+						if fs, fv, ok := a.pairRoles(gl); ok {
+							out := map[string]string{}
+							dup := false
+							for _, p := range pairs {
+								if _, seen := out[p[fs]]; seen {
+									dup = true
+								}
+								out[p[fs]] = p[fv]
+							}
+							if !dup {
+								a.genPairs = &pairTable{Var: gl, Stem: fs, Variable: fv}
+								return out, a.P.Pos(nm.Pos()), gl
+							}
+						}
+						continue
+					}
 					mt, ok := pk.TypesInfo.TypeOf(cl).Underlying().(*types.Map)
 					if !ok {
 						continue
@@ -409,6 +448,222 @@ func (a *Analysis) genTable() (map[string]string, string, *ssa.Global) {
 		}
 	}
 	return nil, "", nil
+}
+
+// rangesOverWholeTable: call c sits in a loop whose counter runs from 0 to len(table)-1 in
+// steps of one and indexes the table (the code a `range` over an array or slice compiles to).
+func (a *Analysis) rangesOverWholeTable(c ssa.CallInstruction, tv *ssa.Global) bool {
+	fn := c.Parent()
+	n := int64(-1)
+	if at, ok := tv.Type().Underlying().(*types.Pointer).Elem().Underlying().(*types.Array); ok {
+		n = at.Len()
+	}
+	for _, b := range fn.Blocks {
+		if b.Comment != "rangeindex.loop" || !b.Dominates(c.Block()) {
+			continue
+		}
+		// t = phi [-1, t+1]; t+1 < len
+		for _, in := range b.Instrs {
+			bo, ok := in.(*ssa.BinOp)
+			if !ok || bo.Op != token.LSS {
+				continue
+			}
+			okLen := false
+			if k, isC := intConst(bo.Y); isC && k == n {
+				okLen = true
+			}
+			if base := lenOperand(bo.Y); base != nil && loadedGlobal(base) == tv {
+				okLen = true
+			}
+			inc, ok := bo.X.(*ssa.BinOp)
+			if !ok || inc.Op != token.ADD || !okLen {
+				continue
+			}
+			phi, ok := inc.X.(*ssa.Phi)
+			one, isOne := intConst(inc.Y)
+			if !ok || !isOne || one != 1 || len(phi.Edges) != 2 {
+				continue
+			}
+			startOK := false
+			for _, e := range phi.Edges {
+				if k, isC := intConst(e); isC && k == -1 {
+					startOK = true
+				}
+			}
+			if !startOK {
+				continue
+			}
+			// the element handed to the call is indexed by that counter
+			for _, blk := range fn.Blocks {
+				for _, in2 := range blk.Instrs {
+					switch x := in2.(type) {
+					case *ssa.Index:
+						if loadedGlobal(x.X) == tv && x.Index == ssa.Value(inc) {
+							return true
+						}
+					case *ssa.IndexAddr:
+						if (loadedGlobal(x.X) == tv || x.X == ssa.Value(tv)) && x.Index == ssa.Value(inc) {
+							return true
+						}
+					}
+				}
+			}
+		}
+	}
+	return false
+}
+
+// pairTable describes a generator table written as an array or slice of two-string structs.
+type pairTable struct {
+	Var            *ssa.Global
+	Stem, Variable int // field indices
+}
+
+// pairLiteral: cl is an array or slice literal of structs with exactly two string fields, every
+// element a literal of two string constants; the elements in field order.
+func (a *Analysis) pairLiteral(pk *packages.Package, cl *ast.CompositeLit) ([][2]string, bool) {
+	var elem types.Type
+	switch u := pk.TypesInfo.TypeOf(cl).Underlying().(type) {
+	case *types.Array:
+		elem = u.Elem()
+	case *types.Slice:
+		elem = u.Elem()
+	default:
+		return nil, false
+	}
+	st, ok := elem.Underlying().(*types.Struct)
+	if !ok || st.NumFields() != 2 {
+		return nil, false
+	}
+	for i := 0; i < 2; i++ {
+		if b, ok := st.Field(i).Type().Underlying().(*types.Basic); !ok || b.Info()&types.IsString == 0 {
+			return nil, false
+		}
+	}
+	var out [][2]string
+	for _, el := range cl.Elts {
+		if _, isKV := el.(*ast.KeyValueExpr); isKV {
+			return nil, false // indexed elements: not needed
+		}
+		ecl, ok := ast.Unparen(el).(*ast.CompositeLit)
+		if !ok || len(ecl.Elts) != 2 {
+			return nil, false
+		}
+		var pair [2]string
+		for i, fe := range ecl.Elts {
+			idx := i
+			val := fe
+			if kv, isKV := fe.(*ast.KeyValueExpr); isKV {
+				id, ok := kv.Key.(*ast.Ident)
+				if !ok {
+					return nil, false
+				}
+				idx = -1
+				for k := 0; k < 2; k++ {
+					if st.Field(k).Name() == id.Name {
+						idx = k
+					}
+				}
+				if idx < 0 {
+					return nil, false
+				}
+				val = kv.Value
+			}
+			tv := pk.TypesInfo.Types[val]
+			if tv.Value == nil || tv.Value.Kind() != constant.String {
+				return nil, false
+			}
+			pair[idx] = constant.StringVal(tv.Value)
+		}
+		out = append(out, pair)
+	}
+	return out, len(out) > 0
+}
+
+// pairRoles: the generator calls a two-string function with the two fields of one element of
+// the table tv (`update(l.path, l.variable)` inside `for _, l := range tv`): the field passed
+// first is the file stem, the other the variable name.
+func (a *Analysis) pairRoles(tv *ssa.Global) (stem, variable int, ok bool) {
+	if tv == nil {
+		return 0, 0, false
+	}
+	found := false
+	for _, fn := range a.P.ModuleFuncs(false) {
+		if fn.Pkg != a.P.Gen {
+			continue
+		}
+		for _, c := range callsIn(fn) {
+			callee := c.Common().StaticCallee()
+			if callee == nil || callee.Pkg != a.P.Gen {
+				continue
+			}
+			sa, okA := updateArgs(c)
+			if !okA || len(sa) != 2 {
+				continue
+			}
+			e0, f0, ok0 := pairElemField(sa[0], tv)
+			e1, f1, ok1 := pairElemField(sa[1], tv)
+			if !ok0 || !ok1 || e0 != e1 || f0 == f1 {
+				continue
+			}
+			if found && (f0 != stem || f1 != variable) {
+				return 0, 0, false
+			}
+			stem, variable, found = f0, f1, true
+		}
+	}
+	return stem, variable, found
+}
+
+// pairElemField: v is field f of an element of table tv — of the local copy `l` that a range
+// loop over tv assigns each element to.  Returns that local and f.
+func pairElemField(v ssa.Value, tv *ssa.Global) (ssa.Value, int, bool) {
+	ld, ok := v.(*ssa.UnOp)
+	if !ok || ld.Op != token.MUL {
+		return nil, 0, false
+	}
+	fa, ok := ld.X.(*ssa.FieldAddr)
+	if !ok {
+		return nil, 0, false
+	}
+	switch base := fa.X.(type) {
+	case *ssa.Alloc:
+		// every store into the local is an element of the table
+		n := 0
+		for _, ref := range *base.Referrers() {
+			st, ok := ref.(*ssa.Store)
+			if !ok || st.Addr != ssa.Value(base) {
+				continue
+			}
+			n++
+			if !isTableElem(st.Val, tv) {
+				return nil, 0, false
+			}
+		}
+		if n == 0 {
+			return nil, 0, false
+		}
+		return base, fa.Field, true
+	case *ssa.IndexAddr:
+		// &tv[i] (a slice or an array addressed in place)
+		if loadedGlobal(base.X) == tv || base.X == ssa.Value(tv) {
+			return base, fa.Field, true
+		}
+	}
+	return nil, 0, false
+}
+
+// isTableElem: v is tv[i] for some i (of the array value loaded from tv, or through &tv[i]).
+func isTableElem(v ssa.Value, tv *ssa.Global) bool {
+	switch x := v.(type) {
+	case *ssa.Index:
+		return loadedGlobal(x.X) == tv
+	case *ssa.UnOp:
+		if ia, ok := x.X.(*ssa.IndexAddr); ok && x.Op == token.MUL {
+			return loadedGlobal(ia.X) == tv || ia.X == ssa.Value(tv)
+		}
+	}
+	return false
 }
 
 // genOutDir: the constant directory the generator writes into (relative to the repository root).
@@ -629,6 +884,78 @@ func updateArgs(c ssa.CallInstruction) ([]ssa.Value, bool) {
 	return out, true
 }
 
+// statusGate: where the generator looks at the status code of the response, an answer of 200
+// must be able to reach a return that does not certainly fail (a test written the wrong way
+// round refuses every good download).  One obligation per function that reads the field.
+func (a *Analysis) statusGate(upd *ssa.Function) {
+	r := a.R
+	var fns []*ssa.Function
+	for f := range a.reachableFrom(upd) {
+		fns = append(fns, f)
+	}
+	sort.Slice(fns, func(i, j int) bool { return fnKey(fns[i]) < fnKey(fns[j]) })
+	for _, f := range fns {
+		subj := map[ssa.Value]bool{}
+		var first *ssa.BasicBlock
+		for _, b := range f.Blocks {
+			for _, in := range b.Instrs {
+				fa, ok := in.(*ssa.FieldAddr)
+				if !ok {
+					continue
+				}
+				pt, ok := fa.X.Type().Underlying().(*types.Pointer)
+				if !ok || !isNamed(pt.Elem(), "net/http", "Response") {
+					continue
+				}
+				if pt.Elem().Underlying().(*types.Struct).Field(fa.Field).Name() != "StatusCode" {
+					continue
+				}
+				for _, ref := range *fa.Referrers() {
+					if ld, ok := ref.(*ssa.UnOp); ok && ld.Op == token.MUL {
+						subj[ld] = true
+						if first == nil || ld.Block().Dominates(first) {
+							first = ld.Block()
+						}
+					}
+				}
+			}
+		}
+		if len(subj) == 0 {
+			continue
+		}
+		res := AnalyseGate(f, subj, first, ZRange(100, 599), a.P.Cfg.IntBits(), a.gateTables, a.isModuleFunc)
+		good := false
+		n := 0
+		for _, ret := range returnsOf(f) {
+			reach, seen := res.Reach[ret.Block()]
+			if !seen || !reach.Contains(200) {
+				continue
+			}
+			n++
+			fails := false
+			if k := len(ret.Results); k > 0 && isErrorType(ret.Results[k-1].Type()) {
+				switch a.classifyErr(ret.Results[k-1]).Kind {
+				case "fresh", "sentinel", "wrap":
+					fails = true
+				}
+			}
+			if !fails {
+				good = true
+			}
+		}
+		key := fnKey(f) + "/status-200"
+		pos := a.P.Pos(f.Pos())
+		switch {
+		case good:
+			r.OK("W2", key, pos, "", "a 200 response reaches a return of %s that does not certainly fail", fnKey(f))
+		case n == 0 && len(returnsOf(f)) == 0:
+			r.OK("W2", key, pos, "", "%s does not return (it ends the program on its own)", fnKey(f))
+		default:
+			r.Bad("W2", key, pos, "", "%s looks at the status code of the response, and with 200 every return it reaches gives a certain error: no good download is ever accepted", fnKey(f))
+		}
+	}
+}
+
 func (a *Analysis) ruleW2(upd *ssa.Function) {
 	r := a.R
 	fk := fnKey(upd)
@@ -645,6 +972,7 @@ func (a *Analysis) ruleW2(upd *ssa.Function) {
 		return
 	}
 	pathP, varP := sp[0], sp[1]
+	a.statusGate(upd)
 	e := a.eval(upd, &Ctx{Name: "generator"})
 	for _, ev := range e.Events {
 		if ev.Status == Undecided && (ev.Rule == "P5" || ev.Rule == "U" || ev.Rule == "X") {
@@ -985,6 +1313,9 @@ func (a *Analysis) ruleW2(upd *ssa.Function) {
 			}
 			b, _ := c.V.(BoolV)
 			succeeded := b.Known && b.Val
+			if isSkippedOrOK(c.V) {
+				continue // on some paths not executed, on the others executed successfully: no failure passed over (but not "carried out")
+			}
 			if site == execRec.Instr && succeeded {
 				rendered = true
 			}
